@@ -33,7 +33,7 @@ func (c03) Meta() fw.Meta {
 			"'supplied last' = greatest (timestamp, supply index) among the points of one slot (batches are time-ordered first; DESIGN.md section 1.5)",
 			"future-dated points in batches are outside the property's quantifier and are not generated",
 		},
-		Obligations: []string{"single_accept_at_boundary", "single_reject_at_boundary", "single_reject_future", "batch_one_stale_plus_fresh", "batch_only_old", "batch_equal_timestamp_dups", "batch_multi_ts_same_slot", "batch_lap_collision", "batch_dropped_points", "batch_stored_points", "permutation_twins_compared", "best_routed_to_coarser", "empty_batch", "wrapper_update_calls", "wrapper_updatemany_calls"},
+		Obligations: []string{"single_accept_at_boundary", "single_reject_at_boundary", "single_reject_future", "batch_one_stale_plus_fresh", "batch_only_old", "batch_equal_timestamp_dups", "batch_multi_ts_same_slot", "batch_lap_collision", "batch_dropped_points", "batch_stored_points", "permutation_twins_compared", "best_routed_to_coarser", "empty_batch", "wrapper_update_calls", "wrapper_updatemany_calls", "batch_ancient_points"},
 	}
 }
 
@@ -197,11 +197,19 @@ func (c03) Run(c *fw.Ctx) {
 		old := func(n int) {
 			for i := 0; i < n; i++ {
 				var t int64
-				switch r.Intn(3) {
+				switch r.Intn(4) {
 				case 0:
 					t = s.now - retT
 				case 1:
 					t = s.now - retT - 1
+				case 2:
+					// ancient: more than 2^31 seconds before the clock (possible once the clock is past 2038)
+					if s.now > 1<<31+1000 {
+						t = 1 + r.Int63n(s.now-1<<31-1)
+						c.Count("batch_ancient_points", 1)
+						break
+					}
+					fallthrough
 				default:
 					t = s.now - retT - r.Int63n(l.MaxRet()+int64(l.MaxStep()))
 				}
